@@ -287,8 +287,10 @@ def sc_array_tf(layout, opt):
     fn = opt["fn"]
     roles = {"field": f}
     calls = {
-        "discrete": lambda: tf.array_discrete(f, store_vals := np.array([0.0, 1.0, 2.0]), thresholds="arithmetic"),
-        "discrete_expl": lambda: tf.array_discrete(f, roles["values"], thresholds=[-0.5, 0.8]),
+        "discrete": lambda: tf.array_discrete(f, roles["values"], thresholds="arithmetic"),
+        "discrete_equal": lambda: tf.array_discrete(f, roles["values"], thresholds="equal", mean=0.3, var=1.2),
+        "discrete_expl": lambda: tf.array_discrete(f, roles["values"], thresholds=[-0.5, 0.8]),  # (explicit thresholds are documented as a list)
+        "discrete_wrapper": lambda: tf.discrete(roles["fld"], roles["values"], store="d", process=False),
         "boxcox": lambda: tf.array_boxcox(f, lmbda=0.5, shift=2.0),
         "zinnharvey": lambda: tf.array_zinnharvey(f, conn="high"),
         "force_moments": lambda: tf.array_force_moments(f, mean=1.0, var=2.0),
@@ -297,8 +299,14 @@ def sc_array_tf(layout, opt):
         "arcsin": lambda: tf.array_to_arcsin(f),
         "uquad": lambda: tf.array_to_uquad(f),
     }
-    if fn == "discrete_expl":
-        roles["values"] = lay([0.0, 1.0, 2.0], layout)
+    if fn.startswith("discrete"):
+        roles["values"] = lay([2.0, -1.0, 0.5], layout)  # class values in no particular order
+    if fn == "discrete_wrapper":
+        fo = gs.field.Field(gs.Gaussian(dim=1, var=1.2), mean=0.3)
+        fo(np.arange(7.0), field=f, store="field", post_process=False)
+        roles["fld"] = fo
+        roles = {k: v for k, v in roles.items() if k != "fld"}
+        return roles, (lambda: fo.transform("discrete", values=roles["values"], store="d"))
     return roles, calls[fn]
 
 
@@ -412,7 +420,7 @@ def arg_cases(tier):
     add("fit_variogram", weights=[None, "inv", "array"], dirs=[False, True], latlon=[False, True], sill=[None, 1.5])
     add("normalizer", n=["ln", "bc", "bcs", "yj", "mod", "manly"], fn=["normalize", "denormalize", "derivative", "fit", "loglikelihood"], nd=[1, 2])
     add("mean_norm_trend_tools", fn=["apply", "remove"], mesh=["unstructured", "structured"], check=[True, False], stacked=[False, True], **mnt)
-    add("array_transform", fn=["discrete", "discrete_expl", "boxcox", "zinnharvey", "force_moments", "lognormal", "uniform", "arcsin", "uquad"])
+    add("array_transform", fn=["discrete", "discrete_equal", "discrete_expl", "discrete_wrapper", "boxcox", "zinnharvey", "force_moments", "lognormal", "uniform", "arcsin", "uquad"])
     add("model_functions", fn=["variogram", "covariance", "correlation", "cor", "vario_nugget", "cov_nugget", "cov_spatial", "vario_spatial", "cor_spatial", "isometrize", "anisometrize", "spectrum", "spectral_density", "spectral_rad_pdf", "cov_yadrenko", "vario_yadrenko", "cor_yadrenko"])
     add("public_helpers", fn=["get_scaling", "generator_call", "generator_nugget", "post_field", "krige_set_condition", "krige_get_mean"], nugget=[0.0, 0.3])
     add("geometry", fn=["latlon2pos", "pos2latlon", "generate_grid", "generate_st_grid", "rotated_main_axes"])
